@@ -6,7 +6,7 @@
   cached field; `sstep` is the documented effect of each call on the block list of its target only.
   `abs` forgets `children`, `text`, `parentNode`, `ownerDocument`.
 -/
-import AHP.Lemmas.DomHtml
+import AHP.Lemmas.DomMove
 namespace AHP.C05
 open AHP AHP.Dom AHP.Dom.Spec
 
@@ -267,6 +267,79 @@ theorem frame_apply (w w' : World) (t : Nat) (loc : Meta → List DN → Option 
       | none => simp [he]
       | some e => simpa [he] using hid m bs e he
 
+/-- the calls that move the element `c` under the target `t` -/
+inductive Moves (t c : Nat) : Op → Prop
+  | appendChild : Moves t c (.appendChild t (some c))
+  | appendBlock : Moves t c (.appendBlock t (.elm c))
+  | insertBefore (r : Option Blk) : Moves t c (.insertBefore t (.elm c) r)
+  | insertAfter (r : Option Blk) : Moves t c (.insertAfter t (.elm c) r)
+
+/-- C05c for the element-moving calls (`appendChild`, `appendBlock` with an element, `insertBefore` /
+    `insertAfter` with an element), when the call succeeds (returns the element). The moved element
+    `ct` was a root of the world (`w.roots = a ++ ct :: b`) and the target was found outside it. Then:
+    * the root list of the new world is `a ++ b` root by root (same uids in the same order): the
+      moved root has left it, nothing was added;
+    * every element outside the subtree of `t` and outside the moved tree keeps all its fields
+      (`outsideL t` lists name, attributes, self-closing flag, children, text, parentNode,
+      ownerDocument of each): the old world has those of `a`, of the moved tree, of `b`; the new
+      world those of `a` and `b`, unchanged;
+    * at the target only `isSelfClosing`, `children` and the block list change, and the block list
+      is the old one with the moved tree — after the accounting `attach` — inserted at one position.
+    What `attach` changes inside the moved tree is `moved_tree_fields`. -/
+theorem frame_move (w w' : World) (op : Op) (t c : Nat) (hw : Inv w) (hop : Moves t c op)
+    (h : step w op = some (w', .el c)) :
+    ∃ a b ct m bs m' i, w.roots = a ++ ct :: b ∧ rootId ct = some c ∧ findL? t (a ++ b) = some (m, bs) ∧
+      w'.roots.map DN.rid = (a ++ b).map DN.rid ∧
+      outsideL t w.roots = outsideL t a ++ metas ct ++ outsideL t b ∧
+      outsideL t w'.roots = outsideL t a ++ outsideL t b ∧
+      w'.find? t = some (m', insertAt i (attach m ct) bs) ∧ KeepsScalars m m' := by
+  have key : ∃ a b ct m bs m' i, w.roots = a ++ ct :: b ∧ rootId ct = some c ∧ findL? t (a ++ b) = some (m, bs) ∧
+      outsideL t w'.roots = outsideL t a ++ outsideL t b ∧ w'.roots.map DN.rid = (a ++ b).map DN.rid ∧
+      w'.find? t = some (m', insertAt i (attach m ct) bs) ∧ KeepsScalars m m' := by
+    cases hop with
+    | appendChild =>
+      obtain ⟨a, b, ct, m, bs, m', h1, h2, h3, h4, h5, h6, h7, _⟩ := appendChild_frame w w' t c _ h
+      exact ⟨a, b, ct, m, bs, m', _, h1, h2, h3, h4, h5, h6, h7⟩
+    | appendBlock =>
+      obtain ⟨a, b, ct, m, bs, m', h1, h2, h3, h4, h5, h6, h7, _⟩ := appendChild_frame w w' t c _ h
+      exact ⟨a, b, ct, m, bs, m', _, h1, h2, h3, h4, h5, h6, h7⟩
+    | insertBefore r => exact insert_frame w w' false t c r h
+    | insertAfter r => exact insert_frame w w' true t c r h
+  obtain ⟨a, b, ct, m, bs, m', i, h1, h2, h3, h4, h5, h6, h7⟩ := key
+  refine ⟨a, b, ct, m, bs, m', i, h1, h2, h3, h5, ?_, h4, h6, h7⟩
+  have hnd := hw.nodup
+  rw [h1] at hnd
+  have htin : t ∈ idsL (a ++ b) := findL?_mem t _ h3
+  have htct : t ∉ ids ct := by
+    intro hin
+    simp only [idsL_append, idsL_cons] at hnd htin
+    have hd := List.nodup_append.mp hnd
+    have hd2 := List.nodup_append.mp hd.2.1
+    rcases List.mem_append.mp htin with ha | hb
+    · exact hd.2.2 t ha t (List.mem_append_left _ hin) rfl
+    · exact hd2.2.2 t hin t hb rfl
+  rw [h1, outsideL_append]
+  simp only [outsideL, outside_not_mem t ct htct, List.append_assoc]
+
+/-- What a move changes inside the moved tree `ct = el mc k`: `parentNode` of its root becomes the
+    target, `ownerDocument` of every element becomes the target's; every other field of every element
+    of it (uid, name, attributes, self-closing flag, children, text, the parent links below the
+    root) and the shape of the tree stay. -/
+theorem moved_tree_fields (m mc : Meta) (k : List DN) :
+    metas (attach m (.el mc k)) =
+      { mc with parent := some m.id, owner := m.owner } :: (metasL k).map (fun x => { x with owner := m.owner }) :=
+  metas_attach m mc k
+
+/-- C05c for `appendInnerHTML`: every element outside the subtree of the target keeps all its fields,
+    the root list stays as it was root by root (every element created for the fragment is consumed),
+    the target keeps uid, name, attributes, parentNode, ownerDocument, and its block list is the old
+    one followed by the fragment's blocks after the accounting `attach`. -/
+theorem frame_appendInnerHTML (w w' : World) (t : Nat) (p : Parsed) (v : Val) (m : Meta) (bs : List DN) (hw : Inv w)
+    (hf : w.find? t = some (m, bs)) (h : step w (.appendInnerHTML t p) = some (w', v)) :
+    ∃ m', outsideL t w'.roots = outsideL t w.roots ∧ w'.roots.map DN.rid = w.roots.map DN.rid ∧
+      w'.find? t = some (m', bs ++ (createBlocks (p.build w.nextDoc w.next).1).map (attach m)) ∧ KeepsIdent m m' :=
+  appendInnerHTML_frame w w' t p v m bs hw hf h
+
 /-! ## C05d — serialisation laws -/
 
 /-- outerHTML = start tag + innerHTML + end tag, for every element. -/
@@ -332,5 +405,17 @@ example : (step (initWorld false exSeed exSpares) (.insertBefore 0 (.txt "q".toL
       have : ((initWorld false exSeed exSpares).find? 0).map (fun r => indexOf (.txt "zz".toList) r.2) = some none := by decide
       rw [hf] at this; simpa using this
     rw [insert_text_ref_not_child _ false 0 _ _ m bs hf hr]; rfl
+
+/-- a successful move: the spare element 3 inserted before the text `a` of element 0 -/
+example : ∃ w', step (initWorld false exSeed exSpares) (.insertBefore 0 (.elm 3) (some (.txt "a".toList))) = some (w', .el 3) := by
+  cases h : step (initWorld false exSeed exSpares) (.insertBefore 0 (.elm 3) (some (.txt "a".toList))) with
+  | none => exact absurd h (by decide)
+  | some r =>
+    obtain ⟨w', v⟩ := r
+    have hv : (step (initWorld false exSeed exSpares) (.insertBefore 0 (.elm 3) (some (.txt "a".toList)))).map
+        (fun r => match r.2 with | .el n => n == 3 | _ => false) = some true := by decide
+    rw [h] at hv
+    cases v <;> simp at hv
+    exact ⟨w', by rw [hv]⟩
 
 end AHP.C05
